@@ -45,6 +45,8 @@ pub struct BfsStats {
     pub level_sizes: Vec<usize>,
     pub fixpoint: bool,
     pub cap_hit: Option<String>,
+    /// operation lists of a few states actually reached in this run (deepest, middle, first level)
+    pub sample_paths: Vec<Vec<Value>>,
 }
 
 pub struct BfsViolation {
@@ -224,6 +226,25 @@ pub fn bfs<G: Graph>(
     }
     if frontier.is_empty() && stats.cap_hit.is_none() {
         stats.fixpoint = true;
+    }
+    // sample paths: the last state discovered, one from the middle of the arena, an early one
+    if arena.len() > 1 {
+        let mut picks = vec![arena.len() - 1, arena.len() / 2, 1.min(arena.len() - 1)];
+        picks.dedup();
+        for pick in picks {
+            let mut path = Vec::new();
+            let mut cur = pick;
+            while cur != usize::MAX {
+                if let Some(ref pa) = arena[cur].action {
+                    path.push(g.describe(pa));
+                }
+                cur = arena[cur].parent;
+            }
+            path.reverse();
+            if !path.is_empty() {
+                stats.sample_paths.push(path);
+            }
+        }
     }
     (stats, violations)
 }
